@@ -166,7 +166,7 @@ def ocaml_build():
     for s in srcs:
         shutil.copy(s, OCAML_BUILD)
     order = ["conv.ml"] + sorted(f for f in os.listdir(OCAML_SRC) if f.startswith("chan_")) + ["driver.ml"]
-    rc, out, dt = sh("ocamlfind ocamlopt -package unix -linkpkg -w -a -O3 model.mli model.ml %s -o model_driver" % " ".join(order),
+    rc, out, dt = sh("ocamlfind ocamlopt -package unix,zarith -linkpkg -w -a -O3 model.mli model.ml %s -o model_driver" % " ".join(order),
                      cwd=OCAML_BUILD, check=False)
     if rc != 0:
         raise CheckError("OCaml build failed:\n" + out[-4000:])
@@ -278,7 +278,7 @@ def write_evidence(cid, tier, seed, level, coverage, assumptions, wall, violatio
 TRUSTED_BASE = [
     "Coq 8.16.1 kernel (coqc); vm_compute only inside Example/_refuted witnesses; no native_compute",
     "axioms reported by Print Assumptions for this property's theorems: none (Closed under the global context)",
-    "extraction to OCaml with ExtrOcamlBasic only (no Extract Constant / Extract Inductive of our own); ocamlfind ocamlopt 4.13.1",
+    "extraction to OCaml with ExtrOcamlBasic only (no Extract Constant / Extract Inductive of our own); ocamlfind ocamlopt 4.13.1; Zarith 1.12 is linked only for the UNTRUSTED search of the exact PageRank solution (C18), which is accepted solely through the proved certificate checker",
     "hand-written OCaml driver glue (ocaml/conv.ml, ocaml/chan_*.ml, ocaml/driver.ml): parsing, hex/bit unpacking, windowed bit reader",
     "Rust correspondence harness (/verif/harness) and the python orchestrator (bin/check, bin/vlib.py, bin/props/*.py)",
     "modelled, not verified: dsi-bitstream table-driven code paths and word adapters, file I/O, rayon, mmap",
